@@ -17,6 +17,7 @@ func init() { register(&Check{ID: "C04", Run: runC04}) }
 type c04Case struct {
 	core.CaseRef
 	Window string   `json:"window"` // counting | tumbling | session | global
+	Param  bool     `json:"parameterised_aggregates,omitempty"`
 	N      int      `json:"n"`
 	Cols   []string `json:"cols"`
 	FnKey  bool     `json:"function_key"` // GROUP BY upper(k1)
@@ -155,6 +156,11 @@ func genC04(ref core.CaseRef, r *rand.Rand) *c04Case {
 		}
 	}
 	sel = append(sel, "count(*) AS c", "collect(id) AS ids")
+	if c.Window != "global" && ref.Index%3 == 1 {
+		// aggregates that take a parameter keep one state per group as well
+		c.Param = true
+		sel = append(sel, "nth_value(id, 2) AS n2", "percentile(id, 0) AS p0")
+	}
 	switch c.Window {
 	case "counting":
 		gb = append(gb, fmt.Sprintf("CountingWindow(%d)", c.N))
@@ -181,6 +187,7 @@ func runC04(ctx *core.Ctx) {
 		execC04(ctx, genC04(core.CaseRef{Stream: "c04", Index: i}, r))
 	})
 	c04DistinctStream(ctx)
+	c04LateStream(ctx)
 }
 
 func (c *c04Case) keyOfRow(row Row) string {
@@ -299,6 +306,19 @@ func execC04(ctx *core.Ctx, c *c04Case) {
 			if !numEq(out["c"], len(ids)) {
 				viol("groupby.count_mismatch", fmt.Sprintf("count(*)=%v but collect(id) has %d ids: %s", out["c"], len(ids), core.J(out)))
 				return
+			}
+			if c.Param && len(ids) > 0 {
+				// nth_value(id, 2) is the group's second row, percentile(id, 0) its smallest id
+				mn := ids[0]
+				for _, id := range ids {
+					if id < mn {
+						mn = id
+					}
+				}
+				if (len(ids) >= 2 && !numEq(out["n2"], ids[1])) || (len(ids) < 2 && out["n2"] != nil) || !numEq(out["p0"], mn) {
+					viol("groupby.row_not_in_own_group", fmt.Sprintf("group %q holds the rows %v, but nth_value(id, 2) = %v and percentile(id, 0) = %v: a parameterised aggregate saw rows of another group (delivery %d: %s)", k, ids, out["n2"], out["p0"], d.Index, core.J(out)))
+					return
+				}
 			}
 			for _, id := range ids {
 				src, ok := byID[id]
